@@ -281,6 +281,24 @@ fn main() {
         id += 1;
     }
 
+    // (b2) the same under register pressure with many ops whose two operands are one slot (sub(q, q),
+    // atan2(q, q), ...): the operand may be in memory when the op is allocated, and later evictions reuse slots
+    let nsame = if quick { 400 } else { 4000 };
+    for k in 0..nsame {
+        let mode = match k % 3 { 0 => Mode::All, 1 => Mode::Z, _ => Mode::Choice };
+        let mut inst = Inst::new(rng.next(), mode, 1 + k % 4);
+        inst.same_pct = 35;
+        let n = [3usize, 3, 4, 5][k % 4];
+        let live = [5, 6, 8, 10][(k / 4) % 4];
+        let nops = 12 + rng.below(if quick { 40 } else { 80 });
+        let ap = inst.random_abstract(nops, live, 3);
+        let p = inst.instantiate(&ap);
+        let pts = pgen::input_points(&mut inst.rng, mode, p.nvars, 4);
+        let res = with_n!(n, compile_and_eval(&p, &pts));
+        emit(&mut w, id, "same", n, res, &ssa_ref, mode, Some(&p));
+        id += 1;
+    }
+
     // (c) random DAGs through the public Context API: exercises SsaTape::new too;
     // reference is Context::eval, the graph evaluated directly
     let nctx = if quick { 150 } else { 2000 };
